@@ -243,6 +243,15 @@ def run(rep, tier, seed):
             for f2 in flags:
                 if f1 != f2:
                     hist.append([('new', T0), ('parse', 0) + f1 + (s_,), ('parse', 0) + f2 + (s_,)])
+    # another Licensing with other words built and used in between: the first one must not learn anything from it
+    others = [[('zlib', ['z lib'], False), ('foo', [], False)], [('bar', ['foo bar'], True)], [('GPL 2.0', ['gnu gpl'], False), ('later', [], False)]]
+    for Tb in others:
+        for k, als, _ in Tb:
+            for name in [k] + list(als):
+                for f1 in flags[:4]:
+                    hist.append([('new', T0), ('parse', 0, False, False, False, 'mit'), ('new', Tb), ('parse', 1, False, False, False, name),
+                                 ('parse', 0) + f1 + ('mit or ' + name,), ('keys_text', 0, False, name + ' and mit', 'mit'),
+                                 ('validate_text', 0, False, name, name)])
     related = [('foo', 'FOO'), ('mit  or foo', 'mit or foo'), ('gplv2', 'GPLV2'), ('MIT', 'mit'),
                # the same operands in another order, repeated, or spelled through an alias
                ('mit and gpl 2.0', 'gpl 2.0 and mit'), ('mit or gpl 2.0 or foo', 'foo or mit or gpl 2.0 or mit'),
